@@ -217,3 +217,93 @@ def x3_pipeline(c1: int, c2: int, c3: int, dq: bool, sq: bool, html: bool) -> bo
         if out != want:
             return False
     return True
+
+
+# ---------------------------------------------------------------------------------------- X4
+# the derived renderers on REAL tokens with one symbolic attribute (see C01-T4): same output as HtmlRenderer
+
+X4_SKIP = {'PygmentsRenderer': ('fence-language', 'fence-content', 'indented-content'), 'TocRenderer': (), 'GithubWikiRenderer': (), 'MathJaxRenderer': ()}
+
+
+def _x4_jobs(ks_):
+    from vfy.lemmas.c01 import T4_HOLES
+    out = []
+    for h in sorted(T4_HOLES):
+        if h == 'math':
+            continue
+        for name in ('TocRenderer', 'GithubWikiRenderer', 'MathJaxRenderer', 'PygmentsRenderer'):
+            if h in X4_SKIP[name]:
+                continue
+            for k in ks_:
+                out.append({'hole': h, 'r': name, 'k': k})
+    return out
+
+
+def x4_deliverable(c1, c2, c3):
+    from vfy.lemmas.c01 import T4_HOLES
+    w = S(P('k'), c1, c2, c3)
+    if P('r') == 'MathJaxRenderer':
+        for ch in w:
+            if ch == '$':
+                return False           # a dollar sign can make a Math token under MathJaxRenderer only: outside "no extension construct"
+    return T4_HOLES[P('hole')][3](w)
+
+
+def x4_replay(c1, c2, c3, dq, sq, html):
+    """through the public API only: some text delivering the attribute value is rendered differently"""
+    from mistletoe import Document
+    from vfy.lemmas.c01 import T4_HOLES
+    w = S(P('k'), c1, c2, c3)
+    skeleton, path, setter, deliverable, texts = T4_HOLES[P('hole')]
+    if not deliverable(w) or (P('r') == 'MathJaxRenderer' and '$' in w):
+        return False, 'pre-condition false for %r' % w
+    cls = _classes()[P('r')]
+    kw = {'html_escape_double_quotes': dq, 'html_escape_single_quotes': sq, 'process_html_tokens': html}
+    for text in texts(w):
+        if P('r') == 'MathJaxRenderer' and '$' in text:
+            continue
+        with HtmlRenderer(**kw) as r:
+            base = r.render(Document(text))
+        try:
+            with cls(**kw) as r:
+                out = r.render(Document(text))
+        except Exception as e:
+            return True, '%s(**%r).render(Document(%r)) raised %s: %s' % (cls.__name__, kw, text, type(e).__name__, e)
+        want = base + (cls.mathjax_src if P('r') == 'MathJaxRenderer' else '')
+        if out != want:
+            return True, '%s(**%r) on %r: %r, HtmlRenderer: %r' % (cls.__name__, kw, text, out, base)
+    return False, 'no text delivering %r is rendered differently' % w
+
+
+@lemma('X4.render-attrs', 'C18', quick=[dict(j, dq=False, sq=False, html=True) for j in _x4_jobs([2])] + [j for j in _x4_jobs([1]) if j['hole'] in ('text', 'heading-text', 'link-title')],
+       thorough=[dict(j, dq=False, sq=False, html=True) for j in _x4_jobs([2])] + _x4_jobs([0, 1, 2]) + [dict(j, timeout=3000) for j in _x4_jobs([3])], timeout=600, per_path=60, replay=x4_replay,
+       stubs=['urllib.parse.quote -> contract stub', 'pygments -> stubs (code blocks excluded for PygmentsRenderer)', 'concrete skeleton parsed natively, one attribute replaced by the symbolic string'],
+       covers=['contrib/toc_renderer.py:TocRenderer.render_heading', 'contrib/mathjax.py:MathJaxRenderer.render_document', 'contrib/github_wiki.py:GithubWikiRenderer.__init__',
+               'contrib/pygments_renderer.py:PygmentsRenderer.__init__', 'html_renderer.py:HtmlRenderer.render_document'],
+       note='every string attribute a renderer reads takes any k-character value the parser can deliver for it; each derived renderer returns exactly what HtmlRenderer returns '
+            '(+ the script line for MathJax), quote / HTML options symbolic; counterexamples are replayed through Document(text) only')
+def x4_render_attrs(c1: int, c2: int, c3: int, dq: bool, sq: bool, html: bool) -> bool:
+    """
+    pre: fixed(dq, 'dq') and fixed(sq, 'sq') and fixed(html, 'html') and all_ok(cp_md, P('k'), c1, c2, c3) and x4_deliverable(c1, c2, c3)
+    post: _
+    """
+    from mistletoe import Document
+    from vfy.lemma import untraced
+    from vfy.lemmas.c01 import T4_HOLES, stub_pygments
+    install_quote()
+    stub_pygments(False)
+    w = S(P('k'), c1, c2, c3)
+    skeleton, path, setter, deliverable, texts = T4_HOLES[P('hole')]
+    kw = {'html_escape_double_quotes': dq, 'html_escape_single_quotes': sq, 'process_html_tokens': html}
+    outs = []
+    for cls in (HtmlRenderer, _classes()[P('r')]):
+        with cls(**kw) as r:
+            with untraced():
+                doc = Document(skeleton)
+            t = doc
+            for i in path:
+                t = t.children[i]
+            setter(t, w)
+            outs.append(r.render(doc))
+    want = outs[0] + (_classes()[P('r')].mathjax_src if P('r') == 'MathJaxRenderer' else '')
+    return outs[1] == want
